@@ -861,6 +861,82 @@ fn replay_deleted_row_announced(sc: &Value) -> Value {
     })
 }
 
+/// C17 probe / replay: a row written on instance A is delivered to instance B the way synchronisation does it
+/// (room definition, filter_existing_node, add_nodes); is it found by a full-text search on B ?
+fn replay_search_synchronised_row(sc: &Value) -> Value {
+    use crate::database::graph_database::GraphDatabaseService;
+    use crate::database::node::{NodeIdentifier, NodeToInsert};
+    use crate::database::query_language::parameter::{Parameters, ParametersAdd};
+    let update_existing = sc["update_existing"].as_bool().unwrap_or(false);
+    let rt = tokio::runtime::Builder::new_multi_thread().enable_all().worker_threads(2).build().unwrap();
+    rt.block_on(async {
+        let base = std::env::var("VERIF_DATA_DIR").unwrap_or_else(|_| "/var/cache/discret-verif/data".to_string());
+        let tag = crate::security::base64_encode(&crate::security::random32()[0..6]);
+        let start = |name: &'static str, tag: String, base: String| async move {
+            let path: std::path::PathBuf = format!("{}/c17/{}/{}", base, tag, name).into();
+            std::fs::create_dir_all(&path).unwrap();
+            GraphDatabaseService::start("verif c17", "ns { E{ name:String } }", &crate::security::random32(), &crate::security::random32(), path,
+                &crate::configuration::Configuration::default(), crate::event_service::EventService::new()).await.unwrap()
+        };
+        let (a, a_key, _) = start("a", tag.clone(), base.clone()).await;
+        let (b, _b_key, _) = start("b", tag.clone(), base.clone()).await;
+        let mut p = Parameters::default();
+        p.add("k", crate::security::base64_encode(&a_key)).unwrap();
+        let created = a
+            .mutate_raw(r#"mutate { sys.Room{ admin:[{ verif_key:$k }] authorisations:[{ name:"g" rights:[{ entity:"ns.E" mutate_self:true mutate_all:true }] users:[{ verif_key:$k }] }] } }"#, Some(p))
+            .await
+            .unwrap();
+        let room_uid = created.mutate_entities[0].node_to_mutate.id;
+        let mut p = Parameters::default();
+        p.add("room", crate::security::base64_encode(&room_uid)).unwrap();
+        let row = a.mutate_raw(r#"mutate { ns.E{ room_id:$room name:"findable alpha text" } }"#, Some(p)).await.unwrap();
+        let row_uid = row.mutate_entities[0].node_to_mutate.id;
+        // B learns the room, then pulls the row
+        let exported = a.get_room_node(room_uid).await.unwrap().unwrap();
+        b.add_room_node(exported).await.unwrap();
+        let deliver = |a: GraphDatabaseService, b: GraphDatabaseService| async move {
+            let mut rx = a.get_nodes(room_uid, vec![row_uid]).await;
+            let mut copy: Option<Node> = None;
+            while let Some(r) = rx.recv().await {
+                for n in r.unwrap() {
+                    copy = Some(n);
+                }
+            }
+            let copy = copy.unwrap();
+            let mut ids: HashSet<NodeIdentifier> = HashSet::new();
+            ids.insert(NodeIdentifier { id: row_uid, mdate: copy.mdate, signature: copy._signature.clone() });
+            let filtered: Vec<NodeToInsert> = b.filter_existing_node(ids).await.unwrap();
+            let mut to_insert = vec![];
+            for mut nti in filtered {
+                let mut n = copy.clone();
+                n._local_id = nti.old_local_id;
+                nti.node = Some(n);
+                to_insert.push(nti);
+            }
+            let n = to_insert.len();
+            let rejected = b.add_nodes(room_uid, to_insert).await.unwrap().len();
+            (n, rejected)
+        };
+        let (delivered, rejected) = deliver(a.clone(), b.clone()).await;
+        let mut stale = false;
+        if update_existing {
+            // A rewrites the text; B receives the new version of a row it already holds
+            tokio::time::sleep(std::time::Duration::from_millis(20)).await;
+            let mut p = Parameters::default();
+            p.add("id", crate::security::base64_encode(&row_uid)).unwrap();
+            a.mutate_raw(r#"mutate { ns.E{ id:$id name:"rewritten beta words" } }"#, Some(p)).await.unwrap();
+            let _ = deliver(a.clone(), b.clone()).await;
+            stale = b.query(r#"query { ns.E(search("alpha")){ name } }"#, None).await.unwrap().contains("name");
+        }
+        let word = if update_existing { "beta" } else { "alpha" };
+        let plain = b.query("query { ns.E{ name } }", None).await.unwrap();
+        let found = b.query(&format!(r#"query {{ ns.E(search("{}")){{ name }} }}"#, word), None).await.unwrap();
+        let found_on_a = a.query(&format!(r#"query {{ ns.E(search("{}")){{ name }} }}"#, word), None).await.unwrap();
+        json!({"status": "done", "delivered": delivered, "rejected": rejected, "row_present_on_b": plain.contains(word), "search_finds_it_on_a": found_on_a.contains(word),
+               "search_finds_it_on_b": found.contains(word), "old_text_still_matches_on_b": stale})
+    })
+}
+
 /// C18: the RoomNodeWrite arm of the real process_message with a real EventService subscriber, a real writer handle and a real reply channel
 fn replay_room_node_write_event(sc: &Value) -> Value {
     let rt = tokio::runtime::Builder::new_multi_thread().enable_all().worker_threads(2).build().unwrap();
@@ -1899,6 +1975,7 @@ pub fn dispatch(sc: &Value) -> Value {
         "acquire_lock" => crate::synchronisation::room_locking_service::verif_hook::replay_acquire_lock(sc),
         "handshake" => crate::synchronisation::peer_inbound_service::verif_hook::replay_handshake(sc),
         "version_selection" => replay_version_selection(sc),
+        "search_synchronised_row" => replay_search_synchronised_row(sc),
         "room_node_write_event" => replay_room_node_write_event(sc),
         "deleted_row_announced" => replay_deleted_row_announced(sc),
         "received_edge_foreign_source" => replay_received_edge_foreign_source(sc),
